@@ -233,12 +233,12 @@ func (t *target) probes(idx int) string {
 	// 4. a UDP datagram that arrives in three fragments (reassembly still works). A mutated
 	// frame may have left a fragment with the same identification behind, so up to three
 	// identifications are tried.
-	big := append(append([]byte(nil), pl...), bytes.Repeat([]byte{byte(n)}, 40)...)
+	big := append(append([]byte(nil), pl...), bytes.Repeat([]byte{byte(n)}, 2400)...)
 	whole := rfc.UDP{SrcPort: pp, DstPort: 5353, Payload: big}.Bytes4(t.c.P4, t.c.S4, true)
 	okFrag := false
 	for try := 0; try < 3 && !okFrag; try++ {
 		id := uint16(40000 + (n*7+try*131)%20000)
-		for _, c := range [][3]int{{0, 16, 1}, {16, 32, 1}, {32, len(whole), 0}} {
+		for _, c := range [][3]int{{0, 800, 1}, {800, 1600, 1}, {1600, len(whole), 0}} {
 			fr := rfc.IPv4{TTL: 64, Proto: rfc.ProtoUDP, ID: id, Src: t.c.P4, Dst: t.c.S4, Flags: uint8(c[2]), FragOff: uint16(c[0] / 8), Payload: whole[c[0]:c[1]]}
 			t.h.L.Inject(ipv4.ProtocolNumber, fr.Bytes(true), tcpip.LinkAddress(t.c.PMAC[:]))
 		}
@@ -312,6 +312,9 @@ func vtChild(t *testing.T) {
 				size := 65000
 				if i%4 == 3 || i >= sets/2 {
 					size = 600 + 8*(i%100)
+				}
+				if i >= 3*sets/4 {
+					size = 8 * (1 + i%8)
 				}
 				for _, c := range [][3]int{{0, 8, 1}, {32, size, 0}, {8, 8, 0}} {
 					fr := rfc.IPv4{TTL: 64, Proto: rfc.ProtoUDP, ID: id, Src: tg.c.P4, Dst: tg.c.S4, Flags: uint8(c[2]), FragOff: uint16(c[0] / 8), Payload: make([]byte, c[1])}
